@@ -170,6 +170,9 @@ def gen_desc(rng):
                     sts = [{'op': 'prefetch', 'w': rng.randrange(1, 4), 'b': 3, 'backend': 't'}]
                     if rng.random() < 0.5:
                         sts[0]['w'] = 1
+                    if rng.random() < 0.3:
+                        # the prefetch stage itself drops failing examples
+                        sts[0]['catch'] = rng.choice([True, 'value', ['filter', 'key'], 'index'])
                 elif r < 0.3:
                     st = {'op': rng.choice(['reshuffle', 'local_shuffle', 'shuffle']),
                           'seed': rng.randrange(1 << 16)}
@@ -179,7 +182,7 @@ def gen_desc(rng):
                 else:
                     sts = pargen.gen_upstream_stage(rng, a, sid, True)
                     for st in sts:
-                        if st['op'] in ('concat', 'zip', 'intersperse'):
+                        if st['op'] in ('concat', 'zip', 'intersperse', 'keyzip'):
                             st['offset'] = offset
                             offset += 100
                 b = a
